@@ -77,6 +77,9 @@ func HarnessC18Reconcile() {
 	pr.Status.ObjectRefs = []xpv1.TypedReference{
 		zzCRDRef(plural + "." + group),
 		{APIVersion: "apps/v1", Kind: "Deployment", Name: "not.a.crd"},
+		// objects that are not CRDs although their kind, or their group, says so
+		{APIVersion: "example.net/v1", Kind: "CustomResourceDefinition", Name: "vaults.secrets.example.net"},
+		{APIVersion: "apiextensions.k8s.io/v1", Kind: "ConversionReview", Name: "deployments.apps"},
 	}
 	inFamily := zz.Bool("own.inFamily")
 	if inFamily {
